@@ -8,7 +8,7 @@ CONSTANTS
   Small = FALSE
   Avoid = FALSE
   SimK = 1
-  Acts = {"oset", "rebind", "nest"}
+  Acts = {"oset", "rebind", "nest", "ctor", "batch"}
 CONSTRAINT LevelBound
 INVARIANT Conforms
 INVARIANT AltsConform
